@@ -158,6 +158,7 @@ var connBadDSN = []string{"mysql://ctfe", "mysql://u@tcp(db:3306", "mysql://u@tc
 	"postgres://u@db:port/ctfe", "postgres://u@db:5432/ctfe?sslmode=sometimes", "postgres://u@db/ctfe?connect_timeout=soon",
 	"postgres://%zz@db/ctfe", "postgresql://u@db:99999999/ctfe", "postgres://u@db/ctfe?target_session_attrs=whatever"}
 
+var pemPaths = []string{"k.pem", "/etc/ctfe/log.privkey.pem", "../testdata/ct-http-server.privkey.pem", "clé.pem"}
 var slashShapes = []string{"", "", "/", "/", "//"}
 var prefixStems = []string{"log", "/log", "ct/log", "/a/b/", "my log", "日志", "-", "x.example/2024h1", "LOG", "l"}
 var backendStems = []string{"be", "backend ", "后端", "B/", "trillian-log."}
@@ -197,6 +198,9 @@ func drawLog(t *rapid.T, idx int, backendNames []string, forInstance bool) RawLo
 	key := drawKey(t, kinds, p+"key")
 	if !l.Mirror {
 		l.Priv = &RawPriv{Pool: key, Form: "der"}
+		if !forInstance && rapid.IntRange(0, 3).Draw(t, p+"pemfile") == 0 {
+			l.Priv.Form, l.Priv.Path, l.Priv.Password = "pem-file", rapid.SampledFrom(pemPaths).Draw(t, p+"pempath"), rapid.SampledFrom(passwords).Draw(t, p+"pempw")
+		}
 	}
 	if l.Mirror || frozen || rapid.Bool().Draw(t, p+"haspub") {
 		l.Pub = &RawPub{Pool: key}
